@@ -15,7 +15,7 @@ RULE = ("token-kind sequences over the 17 parser-visible kinds with representati
 
 TEXT = {'lparen': ['('], 'rparen': [')'], 'dot': ['.'], 'dcolon': ['::'], 'colon': [':'], 'semi': [';'], 'equals': ['='],
         'comma': [','], 'slash': ['/'], 'import': ['import'], 'let': ['let'], 'bool': ['true', 'false'], 'ident': ['a', 'b', 'f', 'x_1'],
-        'ipv4': ['1.2.3.4', '255.0.0.1'], 'str': ['"s"', '"|00 ff|"', '""'], 'hex': ['0x1f', '0x0', '0x00000000000000001', '0x0000ffffffffffffffff'], 'int': ['5', '0', '65535', '000000000000000000000000007']}
+        'ipv4': ['1.2.3.4', '255.0.0.1'], 'str': ['"s"', '"|00 ff|"', '""', '"5"', '"true"', '"0x1f"', '"1.2.3.4"', '"65535"', '"a"', '"import"'], 'hex': ['0x1f', '0x0', '0x00000000000000001', '0x0000ffffffffffffffff'], 'int': ['5', '0', '65535', '000000000000000000000000007']}
 BADLIT = ['99999999999999999999', '-5', '01.2.3.4', '256.1.1.1', '"|f|"', '"|zz|"', '0xfffffffffffffffff', '65536', '18446744073709551615']
 KINDS = list(TEXT)
 
@@ -151,6 +151,12 @@ def campaign(c):
     for port in ['0', '65535', '65536', '65537', '131072', '18446744073709551615', '18446744073709551616', '-1', '0x10']:
         check(c, ['let', 'a', '=', '1.2.3.4', ':', port, ';'], 'port')
         check(c, ['f', '(', '1.2.3.4', ':', port, ')', ';'], 'port')
+    # literals of different kinds with the same spelling inside and outside quotes, in both orders, near and far apart
+    for a, b in [('5', '"5"'), ('true', '"true"'), ('0x1f', '"0x1f"'), ('1.2.3.4', '"1.2.3.4"'), ('65535', '"65535"'), ('a', '"a"'), ('5', '0x5'), ('1.2.3.4', '1.2.3.4')]:
+        for x, y in ((a, b), (b, a)):
+            check(c, ['f', '(', x, ',', y, ')', ';'], 'same-spelling')
+            check(c, ['let', 'p', '=', x, ';', 'let', 'q', '=', y, ';', 'f', '(', 'p', ',', 'q', ',', x, ',', y, ')', ';'], 'same-spelling')
+            check(c, ['let', 'p', '=', x, ';', 'let', 'q', '=', '1.2.3.4', ':', (y if not y.startswith('"') else '80'), ';', 'g', '(', 'k', ':', y, ')', ';'], 'same-spelling')
     # scale: each recursive construct of the grammar repeated n times ("nested to any depth"): '/' chains (all pending operators
     # are reduced on the one token that follows the chain), nested calls, argument lists, module paths, member chains
     for n in ([1, 2, 5, 16, 17, 18, 19, 20, 39, 40, 41, 64, 150] if c.quick else list(range(1, 70)) + [100, 150, 300, 1000]):
